@@ -222,6 +222,7 @@ func (e *Engine) RunInit(pkg *ssa.Package) {
 	e.varByName = map[string]*Term{}
 	e.extra = map[string]interface{}{}
 	e.obsTerms = map[string][]*Term{}
+	e.obsUnsigned = map[string]map[int]bool{}
 	e.model = NewModel()
 	e.epoch = 0
 	e.runInitPkg(pkg)
